@@ -107,6 +107,18 @@ def rule_radius(ctx):
     ctx.ob("radii for e = 0", sp.simplify(r0a - a) == 0 and sp.simplify(r0b - a) == 0, "geodetic: %s, geocentric: %s" % (r0a, r0b), "a (sphere)", node=f.node, func=f)
 
 
+def _optional_not_given(t):
+    """tests on the optional line-of-sight arguments, which are not given: all(x is not None ...) is False, any(x is None ...) is True"""
+    t = str(t).replace(" ", "")
+    if t.startswith("all(") and "isnotNone" in t:
+        return False
+    if t.startswith("any(") and "isNone" in t and "isnotNone" not in t:
+        return True
+    if t.startswith("notall(") and "isnotNone" in t:
+        return True
+    return None
+
+
 def rule_sphere(ctx):
     ctx.rule("C07.sphere", "T5", "geocentric2cart and cart2geocentric are mutually inverse")
     r = sp.Symbol("r", positive=True)
@@ -123,7 +135,7 @@ def rule_sphere(ctx):
     ASIN, ATAN2 = sp.Function("ASIN"), sp.Function("ATAN2")
     X, Y, Z = sp.symbols("x y z", real=True)
     ev2 = Sym(ctx.repo, hooks={"arcsin": lambda u: ASIN(u), "arctan2": lambda p, q: ATAN2(p, q)},
-               decide=lambda t: False if t.startswith("all((x is not None for x in [") else None)   # optional LOS arguments not given
+               decide=_optional_not_given)   # optional LOS arguments not given
     rr, lat, lon = ev2.call(GEO, "cart2geocentric", X, Y, Z)
     ok_r = sp.simplify(rr ** 2 - (X ** 2 + Y ** 2 + Z ** 2)) == 0
     ctx.ob("cart2geocentric.r", ok_r, "r = %s" % rr, "sqrt(x^2 + y^2 + z^2)", node=g.node, func=g)
@@ -195,10 +207,24 @@ def rule_dist(ctx):
     g = ctx.func(GEO, "tunnel_distance")
     Re = Sym(ctx.repo).const.get("earth_radius")
     rets = [s for s in g.body if isinstance(s, ast.Return)]
-    t_ok = len(rets) == 1 and norm(rets[0].value).replace(" ", "") == "np.sqrt(np.sum((points2-points1)**2,axis=1))"
-    pts = [st for st in g.body if isinstance(st, ast.Assign) and norm(st.value).replace(" ", "").startswith("np.column_stack(geocentric2cart(constants.earth_radius,")]
-    t_ok = t_ok and len(pts) == 2 and [norm(calls_in(p.value, "geocentric2cart")[0].args[1]) for p in pts] == [g.params[0], g.params[2]] \
-        and [norm(calls_in(p.value, "geocentric2cart")[0].args[2]) for p in pts] == [g.params[1], g.params[3]]
+    if len(rets) != 1:
+        raise AnalysisError("tunnel_distance: expected one return")
+    gflow = Flow(g)
+    rv = gflow.resolve(rets[0].value, at=rets[0], depth=4, stop=tuple(g.params))
+    from ..calls import bind_args
+    g2c = ctx.func(GEO, "geocentric2cart")
+    pts = [c for c in ast.walk(rv) if isinstance(c, ast.Call) and (dotted(c.func) or "").split(".")[-1] == "column_stack"
+           and c.args and isinstance(c.args[0], ast.Call) and dotted(c.args[0].func) == "geocentric2cart"]
+    if len(pts) != 2:
+        raise AnalysisError("tunnel_distance: the two points np.column_stack(geocentric2cart(...)) were not found")
+    tags = {}
+    shape_txt = str(norm(rv)).replace(" ", "")
+    for k_, p_ in enumerate(pts):
+        b_ = bind_args(p_.args[0], g2c)
+        tags["P%d" % k_] = tuple(norm(b_.get(x_)) if b_.get(x_) is not None else None for x_ in g2c.params[:3])
+        shape_txt = shape_txt.replace(str(norm(p_)).replace(" ", ""), "P%d" % k_)
+    want_pts = {("constants.earth_radius", g.params[0], g.params[1]), ("constants.earth_radius", g.params[2], g.params[3])}
+    t_ok = set(tags.values()) == want_pts and shape_txt in ("np.sqrt(np.sum((P0-P1)**2,axis=1))", "np.sqrt(np.sum((P1-P0)**2,axis=1))")
     # symbolic chord from geocentric2cart in radians
     def cart(p, l):
         return (Re * sp.cos(p) * sp.cos(l), Re * sp.cos(p) * sp.sin(l), Re * sp.sin(p))
